@@ -8,6 +8,7 @@ TECHNIQUE = ("Coq proof that the packets read from the first k bytes of a stream
              "never synthesises a DONE without an end-of-message packet + correspondence with the real reader goroutine on a scripted net.Conn that fails at every byte offset")
 RULE = ("responses as in C02, packetised, written to a scripted net.Conn that delivers the first k bytes (EVERY offset k = 0..len for bounded responses, random read sizes) and then fails with EOF / a reset style error / "
         "a timeout style error; the real reader goroutine runs; the sequence of NextPackage results up to the first error and the elapsed time are compared with the model's prefix. "
+        "Drain API: the same failure offsets with a consumer that reads up to the final DONE (NextPackageUntil without callback): one success per final DONE completely received, then the transport error, never the end-of-response signal (fn 17). "
         "Write side: a package is sent through a transport that accepts k bytes and then fails (every k for short messages): error iff k < wire length, accepted bytes = prefix of the model's wire. "
         "Non-trivial = input longer than 40 characters; distinct by input.")
 ASSUMPTIONS = ASSUMPTIONS_COMMON + ["elapsed time until the error is observed by the harness against the configured read timeout (bounded wait), not proved",
